@@ -815,12 +815,32 @@ class IrGenerator:
                             return False
                     return True
 
-                if check_value(lhs_map) and check_branches(rhs_map):
+                def distinct_choices(exprs):
+                    # The choices of a case statement must be distinct.
+                    # When two branches test for the same value the first one wins,
+                    # the if-else implementation preserves that.
+                    choices = [expr.result() for expr in exprs]
+
+                    for nr, choice in enumerate(choices):
+                        for other in choices[:nr]:
+                            if other is choice or bool(other == choice):
+                                return False
+                    return True
+
+                if (
+                    check_value(lhs_map)
+                    and check_branches(rhs_map)
+                    and distinct_choices(rhs_expr)
+                ):
                     return gen_case_when(
                         lhs_expr[0], rhs_expr, bodies, inp._default, open_blocks
                     )
 
-                if check_value(rhs_map) and check_branches(lhs_map):
+                if (
+                    check_value(rhs_map)
+                    and check_branches(lhs_map)
+                    and distinct_choices(lhs_expr)
+                ):
                     return gen_case_when(
                         rhs_expr[0], lhs_expr, bodies, inp._default, open_blocks
                     )
